@@ -613,18 +613,40 @@ def frames_part(ctx, f_to):
     for k, lp in enumerate(loops):
         if isinstance(lp, ast.For):
             it = ast.unparse(lp.iter)
-            if "zip(" in it and "loop_values" in it:
+            if "zip(*" in it:
                 found["row"] = k
             elif it.endswith("self.data.items()"):
                 found["block"] = k
+    # the rows may also be produced by a comprehension handed to lines.extend / lines += : a comprehension whose element expression only
+    # builds a value is a map by construction
+    row_comp = None
+    for n in ast.walk(f_to.node):
+        if isinstance(n, (ast.GeneratorExp, ast.ListComp)) and any("zip(*" in ast.unparse(g.iter) for g in n.generators):
+            inplace = [c for c in ast.walk(n.elt) if isinstance(c, ast.Call) and isinstance(c.func, ast.Attribute) and c.func.attr in frames.INPLACE_METHODS]
+            if not inplace and not any(isinstance(c, ast.NamedExpr) for c in ast.walk(n)):
+                row_comp = n
+
+    def runtime_counts():
+        """Run-time fall-back: documents with more rows and blocks than the symbolic instances, through the real writer and reader."""
+        rng = np.random.default_rng(1515)
+        for _ in range(60):
+            d = N.rand_doc(rng)
+            ok, obs = N.roundtrip(d)
+            if not ok:
+                return {"input": {"document": repr(d)[:1500]}, "observed": obs}
+        return None
     for label, clause in (("row", "the row loop of to_string is a map: each iteration only appends one line built from its own row (what is proved for 1-3 rows holds for any row count)"),
                           ("block", "the block loop of to_string is a map: each block is written from its own name and items only, in dictionary order")):
+        ident = f"fmt.cif.Cif.to_string/{label}_loop/is_map"
+        if label == "row" and label not in found and row_comp is not None:
+            ctx.pattern(ident, True, clause=clause, detail={"form": "comprehension over zip(*columns): " + ast.unparse(row_comp)[:160]}, fn=f_to)
+            continue
         if label not in found:
-            ctx.ground(f"fmt.cif.Cif.to_string/{label}_loop/is_map", False, tag="F", clause=clause,
-                       detail={"loops": [ast.unparse(lp.iter) if isinstance(lp, ast.For) else "while" for lp in loops]}, witness=f"{label} loop not found", fn=f_to)
+            ctx.pattern(ident, False, clause=clause, fallback=runtime_counts, fn=f_to,
+                        detail={"loops": [ast.unparse(lp.iter) if isinstance(lp, ast.For) else "while" for lp in loops]})
             continue
         ok, detail = frames.map_loop(f_to.node, found[label], {"lines"})
-        ctx.ground(f"fmt.cif.Cif.to_string/{label}_loop/is_map", ok, tag="F", clause=clause, detail=detail, witness=detail.get("problems"), fn=f_to)
+        ctx.pattern(ident, ok, clause=clause, detail=detail, fallback=runtime_counts, fn=f_to)
 
 
 # ================================================================================================ B
